@@ -1100,6 +1100,43 @@ func lockstep(p *Prog, x, y ssa.Value, seen map[[2]ssa.Value]bool, depth int) (b
 		return true, "both nil"
 	}
 	switch a := x.(type) {
+	case *ssa.Parameter:
+		// two parameters of one private function: in lockstep if the arguments are, at every call
+		b, ok := y.(*ssa.Parameter)
+		if !ok || a.Parent() != b.Parent() {
+			return false, ""
+		}
+		fn := a.Parent()
+		if obj := fn.Object(); obj != nil && obj.Exported() {
+			return false, "" // callable from outside the repository
+		}
+		ia, ib := -1, -1
+		for i, q := range fn.Params {
+			if q == a {
+				ia = i
+			}
+			if q == b {
+				ib = i
+			}
+		}
+		n := 0
+		for _, e := range p.CG().In[fn] {
+			if e.Kind != "static" || !p.InRepo(e.Caller) {
+				return false, ""
+			}
+			args := e.Site.Common().Args
+			if ia >= len(args) || ib >= len(args) {
+				return false, ""
+			}
+			if ok, _ := lockstep(p, args[ia], args[ib], seen, depth+1); !ok {
+				return false, ""
+			}
+			n++
+		}
+		if n == 0 {
+			return false, ""
+		}
+		return true, fmt.Sprintf("parameters %s and %s receive slices of equal length at all %d call sites", a.Name(), b.Name(), n)
 	case *ssa.Extract:
 		b, ok := y.(*ssa.Extract)
 		if !ok || a.Tuple != b.Tuple {
